@@ -7,7 +7,7 @@ from typing import Dict, FrozenSet, List, Optional, Set, Tuple
 
 from ..cfg import CFG, Node, explore, walk_node
 from ..domains import is_abs, is_abs2, is_conj, is_dagger, is_norm2, is_trace, strip_real, strip_shape
-from ..model import AnalysisError, FuncInfo, Repo, call_np, dotted, expand_src, method_call, src, walk_no_nested
+from ..model import AnalysisError, FuncInfo, Repo, call_np, dotted, expand_ast, expand_src, method_call, src, walk_no_nested
 from ..report import Ob, bad, note, ok, skip
 from ..scope import assignments_to, full_call_name, local_bindings, resolve_alias
 from . import rule
@@ -479,9 +479,12 @@ def _depends_on_outcome(e: ast.AST, fi: FuncInfo, cfg: CFG, at: Node, depth: int
                         if any(isinstance(y, ast.Subscript) and src(y.value) in ("outcomes", "results") for y in ast.walk(st.value)) or any(isinstance(y, ast.Name) and y.id in ("choice", "outcome") for y in ast.walk(st.value)):
                             return True
                 for d in cfg.reaching_defs(at, x.id):
-                    if d is cfg.entry or not isinstance(d.ast, ast.Assign):
+                    if d is cfg.entry or not isinstance(d.ast, (ast.Assign, ast.AugAssign)):
                         continue
                     if _depends_on_outcome(d.ast.value, fi, cfg, d, depth + 1):
+                        return True
+                    # `t /= norm(t)`: the updated value also depends on what t held before
+                    if isinstance(d.ast, ast.AugAssign) and isinstance(d.ast.target, ast.Name) and _depends_on_outcome(ast.Name(id=d.ast.target.id, ctx=ast.Load()), fi, cfg, d, depth + 1):
                         return True
             if isinstance(x, ast.Attribute) and isinstance(x.ctx, ast.Load) and isinstance(x.value, ast.Name) and x.value.id == "self" and x.attr == "state":
                 for d in cfg.reaching_defs(at, "@self.state"):
@@ -611,6 +614,28 @@ def collapse(repo: Repo) -> List[Ob]:
             key = f"remaining-space@{lvl}"
             cond = _depends_on_outcome(a.value, ps, cfg, n)
             normed = False
+            v0 = a.value
+            if isinstance(v0, ast.BinOp) and isinstance(v0.op, ast.Div):
+                # written already normalised:  self.state = t / norm(t)
+                den = is_norm2(v0.right) if is_norm2(v0.right) is not None else is_trace(v0.right)
+                if den is not None and src(den) == src(v0.left):
+                    normed = True
+            if isinstance(v0, ast.Name):
+                # normalised in a local first:  t /= norm(t);  self.state = t
+                ds = cfg.reaching_defs(n, v0.id)
+                def _normalising(d):
+                    if d is cfg.entry or d.kind != "stmt":
+                        return False
+                    b_ = d.ast
+                    if isinstance(b_, ast.AugAssign) and isinstance(b_.op, ast.Div) and src(b_.target) == v0.id:
+                        den_ = is_norm2(b_.value) if is_norm2(b_.value) is not None else is_trace(b_.value)
+                        return den_ is not None and src(den_) == v0.id
+                    if isinstance(b_, ast.Assign) and isinstance(b_.value, ast.BinOp) and isinstance(b_.value.op, ast.Div):
+                        den_ = is_norm2(b_.value.right) if is_norm2(b_.value.right) is not None else is_trace(b_.value.right)
+                        return den_ is not None and src(den_) == src(b_.value.left)
+                    return False
+                if ds and all(_normalising(d) for d in ds):
+                    normed = True
             for m in cfg.reachable([n]):
                 b = m.ast
                 if m.kind == "stmt" and isinstance(b, (ast.AugAssign, ast.Assign)) and m is not n:
@@ -858,7 +883,8 @@ def pair(repo: Repo) -> List[Ob]:
             if src(a0) != acc_name:
                 obs.append(bad("PAIR", ce, key, P, n, f"the new factor is multiplied on the *left* (kron({src(a0)[:30]}, {src(a1)[:30]})) while its members are appended at the *end* of the order list"))
                 continue
-            owner = src(a1).rsplit(".state", 1)[0]
+            a1x = expand_ast(ce.node, a1)          # `own_state = so.state` … kron(acc, own_state): the snapshot is read through
+            owner = (src(a1x) if src(a1x).endswith(".state") else src(a1)).rsplit(".state", 1)[0]
             # find the enclosing statement list and look for the order update after this statement
             blk = _enclosing_block(ce.node, n)
             upd = None
@@ -882,7 +908,7 @@ def pair(repo: Repo) -> List[Ob]:
             t = src(arg)
             good = False
             owner_x = expand_src(ce.node, ast.parse(owner, mode="eval").body)       # `envelope = so.envelope` read through
-            if _typer.classes(ast.parse(owner, mode="eval").body) == {"ProductState"}:
+            if _typer.classes(ast.parse(owner, mode="eval").body) == {"ProductState"} or (how == "extend" and t == f"{owner}.state_objs"):
                 good = how == "extend" and t == f"{owner}.state_objs"
             elif owner_x.endswith(".envelope"):
                 ln = _list_name(ce.node, arg)
